@@ -114,6 +114,7 @@ type Term struct {
 	Name string // OVar
 	ID   int64
 	hasFP bool
+	hash  uint64
 }
 
 var termCounter int64
